@@ -51,7 +51,7 @@ def gen(rng, ntempl=None, allow_anon=True, branchpoints=True, xta_common=False):
             src, dst = rng.choice(ends), rng.choice(ends)
             if rng.random() < 0.15: dst = src                                  # self loop
             if T['edges'] and rng.random() < 0.15: src, dst = T['edges'][-1]['src'], T['edges'][-1]['dst']     # parallel edge
-            if src in T['bps'] and dst in T['bps']: dst = T['locs'][0]['id']
+            if src in T['bps'] and dst in T['bps'] and rng.random() < 0.5: dst = T['locs'][0]['id']       # (edges between branchpoints, self loops included, are accepted)
             E = dict(src=src, dst=dst, control=rng.random() < 0.8, labels=[])
             kinds = [k for k in ('select', 'guard', 'sync', 'update', 'prob') if rng.random() < 0.45]
             if 'prob' in kinds and src not in T['bps'] and rng.random() < 0.6:
